@@ -38,7 +38,12 @@ def run(c):
         c.break_("corr", "c12corr harness run failed", out)
         return
     for l in out.splitlines():
-        if l.startswith("NOTE ") or l.startswith("RUNS "):
+        if l.startswith("INFO group-errors-lock="):
+            c.extra["group_errors_lock"] = l.split("=", 1)[1].split()[0]
+            c.assume("consumer group: tree has errorsLock=%s -> %s" % (c.extra["group_errors_lock"],
+                     "c12_no_panic / c12_group_terminates apply" if c.extra["group_errors_lock"] == "true"
+                     else "pinned tree: c12_no_send_on_closed_group_refuted / _partial apply (finding group:crash:send-on-closed-channel)"))
+        if l.startswith("NOTE ") or l.startswith("RUNS ") or l.startswith("INFO "):
             c.note(l)
             if l.startswith("NOTE setup failed"):
                 c.break_("corr", "c12corr: a scenario could not be set up against this tree", l)
